@@ -95,8 +95,33 @@ inductive DSection : Section → Bytes → Prop where
 /-- a name body without `#` escapes -/
 def PlainName (bs : Bytes) : Prop := ∀ b ∈ bs, isRegular b = true ∧ b ≠ 35
 
-/-- **a metadata item** (`def` line): `/CMapName /name def`, `/CMapType n def` -/
+/-- PDF white space (the six white-space bytes) and comments, as lopdf's object parser skips it
+inside the `/CIDSystemInfo` dictionary -/
+inductive PS : Bytes → Prop where
+  | nil : PS []
+  | ws (b : UInt8) (bs : Bytes) : (b = 32 ∨ b = 9 ∨ b = 10 ∨ b = 13 ∨ b = 0 ∨ b = 12) → PS bs → PS (b :: bs)
+  | comment (body : Bytes) (e : UInt8) (bs : Bytes) : (∀ b ∈ body, b ≠ 10 ∧ b ≠ 13) → (e = 10 ∨ e = 13) →
+      PS bs → PS (37 :: body ++ e :: bs)
+
+/-- a value of the `/CIDSystemInfo` dictionary: a literal string without escapes, parentheses
+or end-of-line bytes; an unsigned integer; a name -/
+inductive DSimpleValue : Bytes → Prop where
+  | lit (cs : Bytes) : (∀ c ∈ cs, c ≠ 40 ∧ c ≠ 41 ∧ c ≠ 92 ∧ c ≠ 13 ∧ c ≠ 10) → DSimpleValue (40 :: cs ++ [41])
+  | int (n : Bytes) : AllDigitsC n → DSimpleValue n
+  | name (nm : Bytes) : PlainName nm → DSimpleValue (47 :: nm)
+
+/-- an entry `/Key value`: PDF white space between them (may be empty in front of `(` or `/`)
+and after the value -/
+inductive DDictEntry : Bytes → Prop where
+  | mk (nm sp1 v sp2 : Bytes) : PlainName nm → PS sp1 → DSimpleValue v →
+      (sp1 ≠ [] ∨ (∃ t, v = 40 :: t) ∨ (∃ t, v = 47 :: t)) → PS sp2 → DDictEntry (47 :: nm ++ sp1 ++ v ++ sp2)
+
+/-- **a metadata item** (`def` line): `/CIDSystemInfo << … >> def`, `/CMapName /name def`,
+`/CMapType n def` -/
 inductive DMeta : Bytes → Prop where
+  | cid (m0 sp0 ents m1 m2 : Bytes) (el : List Unit) : MS m0 → PS sp0 → DList (fun (_ : Unit) => DDictEntry) el ents →
+      MS1 m1 → MS1 m2 →
+      DMeta (strBytes "/CIDSystemInfo" ++ m0 ++ [60, 60] ++ sp0 ++ ents ++ [62, 62] ++ m1 ++ strBytes "def" ++ m2)
   | name (w0 nm w1 m : Bytes) : Blank0 w0 → PlainName nm → Blank1 w1 → MS1 m →
       DMeta (strBytes "/CMapName" ++ w0 ++ 47 :: nm ++ w1 ++ strBytes "def" ++ m)
   | type (w0 n w1 m : Bytes) : Blank1 w0 → AllDigitsC n → Blank1 w1 → MS1 m →
@@ -104,7 +129,8 @@ inductive DMeta : Bytes → Prop where
 
 /-- **The text of a ToUnicode CMap as `cmap_parser::parse` accepts it.**
 The FRAME is fixed: `/CIDInit /ProcSet findresource begin`, `<n> dict begin`, `begincmap`,
-1 to 4 metadata items, one or more sections (any kinds, any order), `endcmap`,
+1 to 4 metadata items (`/CIDSystemInfo` with a `<< >>` dictionary of simple values, `/CMapName`,
+`/CMapType`), one or more sections (any kinds, any order), `endcmap`,
 `CMapName currentdict /CMap defineresource pop`, `end`, `end`; the separators between the words
 of the frame are free within the class the parser uses at that place (blank / multispace).
 Anything may follow the final `end`. -/
